@@ -38,6 +38,7 @@ Section Sound.
   Variable P : params.
   Variable regs0 : reg -> Z.
   Variable xmm0 : nat -> Z * Z.
+  Variable up0 : nat -> nat -> Z.
   Variable mem0 : Z -> Z.
   Let rsp0 := regs0 RSP.
 
@@ -51,6 +52,7 @@ Section Sound.
     R_fault : cfault c = false;
     R_reg : forall r, cr c r = den (ar a r);
     R_xmm : forall x, cx c x = (den (fst (ax a x)), den (snd (ax a x)));
+    R_up : au a = true -> forall x i, (x < 8)%nat -> (2 <= i < visible (Nat.min (w_level W) 2))%nat -> cu c x i = up0 x i;
     R_mem : forall o, match lookup (am a) o with
                       | Some v => cm c (rsp0 + o) = den v
                       | None => below (ahi a) o = false ->
@@ -161,21 +163,28 @@ Section Sound.
                            (if ((rsp0 + o <? cr c RSP) || wr (rsp0 + o))%bool then w_mem W (cn c) (rsp0 + o)
                             else cm c (rsp0 + o)) = mem0 (rsp0 + o)
                  end) ->
-      R {| ar := fun r => if callee_saved r then ar a r else VHav n r; ax := a_call_xmm f n (ax a); am := m;
+      R {| ar := fun r => if callee_saved r then ar a r else VHav n r; ax := a_call_xmm f n (ax a); au := (au a && (xmm_leaf f || xmm_wrapped f))%bool; am := m;
            ahi := Some (match ahi a with None => p | Some h => Z.max h p end);
            azf := None; an := S n; askip := askip a; aend := aend a; aok := aok a |}
-        {| cr := fun r => if callee_saved r then cr c r else w_regs W (cn c) r; cx := c_call_xmm W f (cn c) (cx c);
+        {| cr := fun r => if callee_saved r then cr c r else w_regs W (cn c) r; cx := c_call_xmm W f (cn c) (cx c) (cu c); cu := c_call_vec W f (cn c) (cx c) (cu c);
            cm := fun x => if ((x <? cr c RSP) || wr x)%bool then w_mem W (cn c) x else cm c x;
            czf := w_zf W (cn c); cn := S (cn c); cskip := cskip c; cend := cend c; cfault := cfault c |}).
     { intros m wr Hm. constructor; cbn; auto; try discriminate; try (now rewrite R_n0).
       - intro r. destruct (callee_saved r); auto. now rewrite R_n0.
-      - intro x. unfold c_call_xmm, a_call_xmm. rewrite R_n0. fold n.
-        destruct (xmm_leaf f); [apply R_xmm0|].
+      - intro x. unfold c_call_xmm, c_call_vec, a_call_xmm. rewrite R_n0. fold n.
+        destruct (xmm_leaf f); [cbn; rewrite <- surjective_pairing; apply R_xmm0|].
         destruct (xmm_wrapped f).
         + destruct (Nat.ltb_spec x 8) as [Hx|Hx].
-          * rewrite arch_roundtrip_lower by (try exact Hx; apply Nat.le_min_r). apply R_xmm0.
-          * rewrite arch_roundtrip_upper by (try exact Hx; apply Nat.le_min_r). cbn. apply surjective_pairing.
-        + cbn. apply surjective_pairing. }
+          * assert (V0 : (0 < visible (Nat.min (w_level W) 2))%nat) by (destruct (Nat.min (w_level W) 2) as [|[|?]]; cbn; lia).
+            assert (V1 : (1 < visible (Nat.min (w_level W) 2))%nat) by (destruct (Nat.min (w_level W) 2) as [|[|?]]; cbn; lia).
+            rewrite !arch_context_roundtrip by (auto; apply Nat.le_min_r). cbn. rewrite <- surjective_pairing. apply R_xmm0.
+          * rewrite !arch_roundtrip_untouched by (auto; apply Nat.le_min_r). cbn. first [reflexivity | apply surjective_pairing].
+        + cbn. first [reflexivity | apply surjective_pairing].
+      - intros Hau x i Hx Hi. apply andb_true_iff in Hau as [Hau Hk]. unfold c_call_vec.
+        destruct (xmm_leaf f).
+        + destruct i as [|[|i]]; [lia | lia | cbn; apply R_up0; auto].
+        + cbn in Hk. rewrite Hk. rewrite arch_context_roundtrip by (try apply Nat.le_min_r; auto; lia).
+          destruct i as [|[|i]]; [lia | lia | cbn; apply R_up0; auto]. }
     (* memory facts for the filtered list *)
     assert (M1 : forall o, lookup m1 o = None -> below (Some (match ahi a with None => p | Some h => Z.max h p end)) o = false ->
                    (forall e, p_ext P = Some e -> rsp0 + o <> den e) -> cm c (rsp0 + o) = mem0 (rsp0 + o)).
@@ -356,7 +365,7 @@ Section Sound.
     apply IH; auto. now apply step_sound.
   Qed.
 
-  Lemma R_init zf : R ainit (cstart regs0 xmm0 mem0 zf).
+  Lemma R_init zf : R ainit (cstart regs0 xmm0 up0 mem0 zf).
   Proof.
     constructor; cbn; auto; try discriminate.
     - intro r. destruct r; cbn; auto. unfold rsp0. lia.
@@ -365,9 +374,9 @@ Section Sound.
 
   (* from the computed verdict to every concrete run *)
   Theorem stub_sound sp prog zf :
-    check_stub P sp prog = true -> stub_guarantee W regs0 xmm0 mem0 zf (p_ext P) sp prog.
+    check_stub P sp prog = true -> stub_guarantee W regs0 xmm0 up0 mem0 zf (p_ext P) sp prog.
   Proof.
-    intros H. unfold stub_guarantee. set (c := cexec W prog (cstart regs0 xmm0 mem0 zf)). cbv zeta.
+    intros H. unfold stub_guarantee. set (c := cexec W prog (cstart regs0 xmm0 up0 mem0 zf)). cbv zeta.
     unfold check_stub, check_final in H.
     repeat (apply andb_true_iff in H; destruct H as [H ?]).
     rename H into Hok.
@@ -388,6 +397,7 @@ Section Sound.
         assert (Hin : In x xmm_regs) by (unfold xmm_regs; apply in_seq; lia); specialize (H Hin);
         apply andb_true_iff in H; destruct H as [Hx1 Hx2]; apply val_eqb_eq in Hx1, Hx2; rewrite Hx1, Hx2 end.
       cbn. now destruct (xmm0 x).
+    - intros x i Hx Hi. apply R_up0; auto.
     - intros o Hge Hna Hne. specialize (R_mem0 o).
       destruct (lookup (am a) o) as [v|] eqn:El.
       + exfalso. apply lookup_keys in El. apply in_map_iff in El as [[k u] [Hk Hin]]. cbn in Hk; subst k.
